@@ -1,37 +1,72 @@
 """order engine (C16) as a library: run(seed, budget) -> statistics + failures; replay(case)."""
 import sys, os, json, random, importlib, subprocess, collections, hashlib
 HERE = os.path.dirname(os.path.abspath(__file__)); sys.path.insert(0, HERE)
-import diff_order as D
-from diff_deser import DRIVER
+from common import model as _model, build_module
+
+def ord_src(o):
+    k = o[0]
+    if k == "none": return None
+    if k == "value": return f"order({o[1]})"
+    return f"order({k}={o[1]!r})"
+
+def gen_class(rnd, i, exhaustive=None):
+    nf = rnd.randint(1, 4); nm = rnd.randint(0, 2)
+    names = [f"f{j}" for j in range(nf)] + [f"m{j}" for j in range(nm)]
+    def rand_ord(me):
+        k = rnd.choice(["none", "none", "value", "after", "before"])
+        if k == "none": return ["none"]
+        if k == "value": return ["value", str(rnd.choice([-1, 0, 1, 999]))]
+        others = [n for n in names if n != me] + (["zzz"] if rnd.random() < 0.05 else [])
+        return [k, rnd.choice(others)] if others else ["none"]
+    ords = {n: rand_ord(n) for n in names}
+    overriding = []
+    if rnd.random() < 0.3:
+        for n in rnd.sample(names, rnd.randint(1, len(names))): overriding.append([n, rand_ord(n)])
+    cname = f"O{i}"
+    lines = []
+    if overriding:
+        lines.append("@order({" + ", ".join(f"{n!r}: {ord_src(o) or 'order(0)'}" for n, o in overriding) + "})")
+        overriding = [[n, o if o[0] != "none" else ["value", "0"]] for n, o in overriding]
+    lines += ["@dataclass", f"class {cname}:"]
+    for n in names[:nf]:
+        src = ord_src(ords[n])
+        lines.append(f"    {n}: int = field(default=0" + (f", metadata={src})" if src else ")"))
+    for n in names[nf:]:
+        src = ord_src(ords[n])
+        lines += [f"    @serialized" + (f"(order={src})" if src else ""), f"    def {n}(self) -> int:", "        return 1"]
+    return cname, lines, names, nf, ords, overriding
+
+
+class D:
+    gen_class = staticmethod(gen_class)
 
 def observe(cls, names, nf):
     from apischema import serialize
     from apischema.json_schema import deserialization_schema, serialization_schema
     out = {}
-    for view, elts in (("serialize", names), ("serialization_schema", names), ("deserialization_schema", names[:nf])):
+    for view, elts in (("serialize", names), ("serialization_schema", names), ("deserialization_schema", names[:nf]), ("graphql", names[:nf])):
         try:
             if view == "serialize": real = list(serialize(cls, cls()))
             elif view == "serialization_schema": real = list(serialization_schema(cls).get("properties", {}))
+            elif view == "graphql":
+                from apischema.graphql import graphql_schema
+                def q() -> cls: return cls()
+                q.__annotations__ = {"return": cls}
+                real = list(graphql_schema(query=[q], aliaser=lambda s: s).type_map[cls.__name__].fields)
             else: real = list(deserialization_schema(cls).get("properties", {}))
         except Exception as e: real = "EXC:" + type(e).__name__
         out[view] = (elts, real)
     return out
 
 def model(reqs):
-    lines = [json.dumps(dict(r, id=i, op="order")) for i, r in enumerate(reqs)]
-    out = subprocess.run([DRIVER], input="\n".join(lines) + "\n", capture_output=True, text=True).stdout.splitlines()
-    return [json.loads(l) for l in out]
+    return _model([dict(r, id=i, op="order") for i, r in enumerate(reqs)])
 
 def build(src_lines, tag):
     src = ["from dataclasses import dataclass, field", "from apischema import order, serialized", ""] + src_lines
-    modname = "vpool_" + tag
-    path = os.path.join(HERE, modname + ".py"); open(path, "w").write("\n".join(src))
-    try:
-        sys.modules.pop(modname, None); return importlib.import_module(modname)
-    finally:
-        os.remove(path)
+    return build_module(src, tag)
 
-def run(seed, budget, driver_ok=True):
+def run(prop, seed, budget, ctx):
+    driver_ok = ctx["driver_ok"]
     rnd = random.Random(seed); n = 300 * budget
     classes = [D.gen_class(rnd, i) for i in range(n)]
     mod = build([l for c in classes for l in c[1] + [""]], f"o{seed}")
@@ -55,7 +90,7 @@ def run(seed, budget, driver_ok=True):
         if k_fail or p_fail:
             c["kind"] = "K" if k_fail else "P"; failures.append(c)
     return {"evaluations": len(meta), "distinct_nontrivial": len(distinct),
-            "rule": "generated dataclasses (1-4 fields, 0-2 serialized methods, order value/after/before/overriding) x 3 views; "
+            "rule": "generated dataclasses (1-4 fields, 0-2 serialized methods, order value/after/before/overriding) x 4 views (serialize, both schemas, GraphQL object type); "
                     "non-trivial = at least one order() or overriding; distinct by (view, fields, orders)",
             "samples": [{k: meta[i][k] for k in ("class_src", "view", "real", "model")} for i in range(0, min(len(meta), 9), 3)],
             "histograms": dict(hist), "failures": failures}
@@ -64,7 +99,7 @@ def is_known(kid, case):
     """KF17: the model says `anchored = false`, the real code still matches the model, and what is lost is exactly that"""
     return kid == "KF17" and case["kind"] == "P" and case.get("anchored") is False and case.get("model") == case["real"]
 
-def replay(case):
+def replay(prop, case, ctx):
     mod = build(case["class_src"], "replay")
     obs = observe(getattr(mod, case["cls"]), case["names"], case["nf"])[case["view"]]
     m = model([{"elts": [[x, case["ords"][x]] for x in case["elts"]], "overriding": case["overriding"]}])[0]
